@@ -21,7 +21,7 @@ fn groups_for(prop: &str, ctx: &Ctx) -> Vec<Box<dyn Group>> {
         "C01" => vec![Box::new(c01::PathOk), Box::new(c01::San), Box::new(c01::Read::new(ctx))],
         "C07" => vec![Box::new(c07::Request1)],
         "C06" => vec![Box::new(c06::ListHeader), Box::new(c06::Negotiation::new()), Box::new(c06::Memo::new())],
-        "C03" => vec![Box::new(c03::History), Box::new(c13::Decisions), Box::new(c06::Negotiation::new())],
+        "C03" => vec![Box::new(c03::History), Box::new(c03::Keys), Box::new(c13::Decisions), Box::new(c06::Negotiation::new())],
         "C04" => vec![Box::new(c03::History), Box::new(c04::CacheCtl)],
         "C05" => vec![Box::new(c05::Serve), Box::new(c05::Overlap)],
         "C13" => vec![Box::new(c13::Decisions)],
